@@ -89,7 +89,7 @@ class _StubSink(ClientMessageSink):
   def AsyncProcessRequest(self, sink_stack, msg, stream, headers):
     c = self.script[self.i]
     self.i += 1
-    msg.properties[MessageProperties.Endpoint] = ENDPOINTS[c['e']]
+    msg.properties[MessageProperties.Endpoint] = _Ep(ENDPOINTS[c['e']])     # an endpoint object, as the balancers stamp
     if c['ok']:
       sink_stack.AsyncProcessResponseMessage(MethodReturnMessage('ok'))
     else:
@@ -112,6 +112,21 @@ class _StubProvider(SinkProviderBase):
     return _StubSink
 
 
+def fresh(x):
+  """An equal but distinct string object (sources are built from run-time strings such as '%s:%d' % ...)."""
+  if x is None or len(x) < 2:
+    return x
+  return ''.join([x[:1], x[1:]])
+
+
+class _Ep(object):
+  def __init__(self, text):
+    self.text = text
+
+  def __str__(self):
+    return fresh(self.text)
+
+
 def _close(a, b):
   return abs(a - b) <= 1e-9 * max(1.0, abs(a), abs(b))
 
@@ -130,7 +145,7 @@ def execute(plan):
         meth, ep = None, None      # single source per aggregation key
       else:
         meth, ep = METHODS[u['m']], ENDPOINTS[u['e']]
-      src = Source(method=meth, service=svc, endpoint=ep, client_id=cl)
+      src = Source(method=fresh(meth), service=fresh(svc), endpoint=fresh(ep), client_id=fresh(cl))
       v = u['v']
       if u['static']:
         getattr(TV, k)(src, v)
@@ -150,7 +165,7 @@ def execute(plan):
       import random as _r
       rnd = _r.Random(stream['seed'])
       stream = [rnd.uniform(-1e3, 1e6) for _ in range(stream['n'])]
-    s_src = lambda: Source(method='m', service='stream', endpoint='e:1', client_id=None)
+    s_src = lambda: Source(method=fresh('mm'), service=fresh('stream'), endpoint=fresh('e:1'), client_id=None)
     for x in stream:
       TV(s_src()).t(x)
 
@@ -214,7 +229,7 @@ def execute(plan):
       disp.Open()
       ars = []
       for c in calls:
-        ars.append(disp.DispatchMethodCall(METHODS[c['m']], (), {}))
+        ars.append(disp.DispatchMethodCall(fresh(METHODS[c['m']]), (), {}))
         settle()
       if not all(a.ready() for a in ars):
         raise Violation(ID, 'e2e-incomplete', 'stub calls did not complete')
